@@ -15,6 +15,8 @@ Specification for C05: the standard lexically scoped, side-effect free semantics
   in-scope variables of the expression (`Item.fn ps body ρ`).
 * §3.2.2 dynamic function call: the body is evaluated with variable values = nonlocal variable
   bindings + one binding per parameter.  NOTHING of the caller's variables is visible.
+* F&O 3.1 §9.6.1 fn:adjust-dateTime-to-timezone: a NEW value; with one argument the implicit
+  timezone is the target, `()` as second argument removes the timezone.
 * F&O 3.1 §9.7 op:subtract-dateTimes, §9.5.* timezone-from-dateTime: a value without timezone
   uses the implicit timezone of the dynamic context.
 
@@ -164,6 +166,33 @@ def sem (tz : Option Int) (h : Heap) : Nat → Expr → Env → Except Err Val
         | .error e => .error e
         | .ok vs => semApply (sem tz h n) ps body cap vs
       | .ok _ => .error .type
+    | .durLit s => .ok [.dur s]
+    | .adjust1 e =>
+      match sem tz h n e ρ with
+      | .error e => .error e
+      | .ok [] => .ok []
+      | .ok [x] =>
+        match deref h x with
+        | some d => let r := adjustPure d tz; .ok [.dtv r.1 r.2]
+        | none => .error .type
+      | .ok _ => .error .type
+    | .adjust2 e z =>
+      match sem tz h n e ρ with
+      | .error e => .error e
+      | .ok v =>
+        if v.length > 1 then .error .type else
+        match sem tz h n z ρ with
+        | .error e => .error e
+        | .ok vz =>
+          match targetOf vz with
+          | .error e => .error e
+          | .ok target =>
+            match v with
+            | [x] =>
+              match deref h x with
+              | some d => let r := adjustPure d target; .ok [.dtv r.1 r.2]
+              | none => .error .type
+            | _ => .ok []
 
 def semOut (tz : Option Int) (h : Heap) (n : Nat) (e : Expr) (ρ : Env) : Out :=
   match sem tz h n e ρ with
@@ -196,14 +225,17 @@ def WS (lex : Bool) (exact : Bool) (S : List Name) : Expr → Bool
   | .fn ps b => WS lex (exact && lex) (ps ++ S) b
   | .call0 f => WS lex exact S f
   | .call f a => WS lex exact S f && WS lex exact S a
+  | .durLit _ => true
+  | .adjust1 e => WS lex exact S e
+  | .adjust2 e z => WS lex exact S e && WS lex exact S z
 
 def dom (ρ : Env) : List Name := ρ.map (·.1)
 
 /-- no inline function expression occurs in `e` -/
 def noFn : Expr → Bool
-  | .int _ | .var _ | .empty | .dt _ _ => true
-  | .paren e | .tzOf e | .call0 e => noFn e
-  | .seq a b | .add a b | .sub a b | .eq a b | .call a b => noFn a && noFn b
+  | .int _ | .var _ | .empty | .dt _ _ | .durLit _ => true
+  | .paren e | .tzOf e | .call0 e | .adjust1 e => noFn e
+  | .seq a b | .add a b | .sub a b | .eq a b | .call a b | .adjust2 a b => noFn a && noFn b
   | .letE _ e b | .forE _ e b | .someE _ e b | .everyE _ e b => noFn e && noFn b
   | .fn _ _ => false
 
